@@ -219,7 +219,16 @@ func ruleC20(c *Check, p *Prog) {
 	}
 	pathT := open.Args[0]
 	// R-OUT-DEP
-	c.Expect(mentions(pathT, ldOut), "R-OUT-DEP", "rdgen.worker", wherePos(p, open),
+	depOut := mentions(pathT, ldOut)
+	if !depOut {
+		// ... or on the absolute form of it computed by the caller (filepath.Abs / Clean of `output` kept in a local)
+		Walk(pathT, map[*Term]bool{}, func(u *Term) {
+			if resolvedOut(u, ldOut) {
+				depOut = true
+			}
+		})
+	}
+	c.Expect(depOut, "R-OUT-DEP", "rdgen.worker", wherePos(p, open),
 		"the path of the created file data-depends on the -o variable `output`",
 		fmt.Sprintf("the created file's path %v does not depend on `output`: -o is ignored", pathT))
 	// R-NAME
@@ -229,7 +238,7 @@ func ruleC20(c *Check, p *Prog) {
 	if okp {
 		h := func(x *Term) string {
 			for i, hh := range holes {
-				if hh == x {
+				if hh == x || (x == ldOut && resolvedOut(hh, ldOut)) {
 					return fmt.Sprintf("\x00%d\x00", i)
 				}
 			}
